@@ -55,6 +55,24 @@ Theorem C18_opaque_partial : forall uid bs,
 Proof. exact opaque. Qed.
 Print Assumptions C18_opaque_partial.
 
+(* DYNAMICALLY REGISTERED CLIENTS: the record the registration endpoint stores (registered_record; compared with the
+   real client database after real registrations by the driver) makes the sector the host of the
+   sector_identifier_uri the client asked for: same host, same sub; other host, other sub; never the public sub. *)
+Theorem C18_registered_pairwise_iff_same_sector : forall (H : pystr -> pystr) (host_of : pystr -> pystr),
+  (forall a b, H a = H b -> a = b) ->
+  forall u1 u2 rd1 rd2 uid salt n1 n2, u1 <> [] -> u2 <> [] ->
+  (grant_sub H host_of (registered_record (Some (PS "pairwise")) (Some u1)) rd1 uid salt n1
+   = grant_sub H host_of (registered_record (Some (PS "pairwise")) (Some u2)) rd2 uid salt n2
+   <-> host_of u1 = host_of u2).
+Proof. exact registered_pairwise_iff. Qed.
+Print Assumptions C18_registered_pairwise_iff_same_sector.
+Theorem C18_registered_pairwise_is_not_public : forall (H : pystr -> pystr) (host_of : pystr -> pystr),
+  (forall a b, H a = H b -> a = b) ->
+  forall u rd rd' r' uid salt n n', u <> [] -> host_of u <> [] -> subtype_of r' = Public ->
+  grant_sub H host_of (registered_record (Some (PS "pairwise")) (Some u)) rd uid salt n <> grant_sub H host_of r' rd' uid salt n'.
+Proof. exact registered_pairwise_not_public. Qed.
+Print Assumptions C18_registered_pairwise_is_not_public.
+
 (* non-vacuity *)
 Example C18_nonvacuous :
   let r1 := mkCreg (Some (PS "pairwise")) None (Some (PS "https://a.example.org/s")) in
